@@ -931,7 +931,41 @@ def rule_l(ctx):
     ctx.floor(R, 1)
 
 
+def rule_m(ctx):
+    R = "C14.m"
+    ctx.rule(R, "result arrays of the models hold what the models compute: an array that receives element / masked stores of model values is not "
+             "allocated with the data type of the input signal (np.zeros(..., dtype=signal.dtype), np.zeros_like(signal)) -- for an integer "
+             "image the float values of the sub-models would be truncated on assignment, label by label")
+    m = ctx.model
+    n = 0
+    for mn in sorted(mm for mm in m.modules if mm.startswith("darsia.signals.models.")):
+        mod = m.mod(mn)
+        for f in list(mod.funcs.values()) + [g for k in mod.classes.values() for g in k.methods.values()]:
+            params = set(f.params[1:] if f.cls is not None else f.params)
+            allocs = {}
+            for s_ in ast.walk(f.node):
+                if isinstance(s_, ast.Assign) and len(s_.targets) == 1 and isinstance(s_.targets[0], ast.Name) and isinstance(s_.value, ast.Call):
+                    fn = norm(s_.value.func)
+                    dt = next((kw.value for kw in s_.value.keywords if kw.arg == "dtype"), None)
+                    if fn in ("np.zeros", "np.empty", "np.ones", "np.full") and dt is not None and isinstance(dt, ast.Attribute) and dt.attr == "dtype" and isinstance(dt.value, ast.Name) and dt.value.id in params:
+                        allocs[s_.targets[0].id] = (s_, f"dtype={norm(dt)}")
+                    elif fn in ("np.zeros_like", "np.empty_like", "np.ones_like", "np.full_like") and dt is None and s_.value.args and isinstance(s_.value.args[0], ast.Name) and s_.value.args[0].id in params:
+                        allocs[s_.targets[0].id] = (s_, f"{fn}({s_.value.args[0].id}) without dtype")
+            for name, (st_, how) in allocs.items():
+                stores = [x for x in ast.walk(f.node) if isinstance(x, ast.Assign) and isinstance(x.targets[0], ast.Subscript) and isinstance(x.targets[0].value, ast.Name) and x.targets[0].value.id == name
+                          and not isinstance(x.value, ast.Constant)]
+                if not stores:
+                    continue
+                n += 1
+                ctx.instance(R)
+                ctx.ob(R, f.qname, f"`{name}` receives model values and is a floating-point array", False,
+                       f"`{norm(st_)[:80]}` ({how}) and `{norm(stores[0])[:70]}`: for an integer-typed signal the computed values are cast to that integer type when they are stored", st_, evidence=True)
+    ctx.instance(R, 0)
+    ctx.ob(R, "darsia.signals.models", "result arrays that receive masked stores scanned for allocation with the signal's dtype", True, "", None)
+
+
 def run(ctx):
+    rule_m(ctx)
     rule_l(ctx)
     rule_k(ctx)
     rule_j(ctx)
